@@ -152,10 +152,14 @@ class RF24MeshNoMaster(NetworkMixin):
             self.frame_buf.message = struct.pack("<H", number)
         else:
             self.frame_buf.message = bytes([number])
+        frame_id = self.frame_buf.header.frame_id  # the reply echoes the request's header
         if not self._write(0, TX_NORMAL):
             return -1
         timeout = MESH_LOOKUP_TIMEOUT * 1000000 + time.monotonic_ns()
-        while self._net_update() not in (MESH_ID_LOOKUP, MESH_ADDR_LOOKUP):
+        while (
+            self._net_update() != lookup_type
+            or self.frame_buf.header.frame_id != frame_id
+        ):
             if callable(self.block_less_callback):
                 self.block_less_callback()
             if time.monotonic_ns() > timeout:
